@@ -1776,6 +1776,9 @@ func (self *BinaryServerProtocol) commandHandleListLockCommand(_ *BinaryServerPr
 		return protocol.NewCallResultCommand(command, protocol.RESULT_ERROR, "DECODE_ERROR", nil), nil
 	}
 
+	if request.DbId >= uint32(len(self.slock.dbs)) {
+		return protocol.NewCallResultCommand(command, protocol.RESULT_UNKNOWN_DB, "UNKNOWN_DB_ERROR", nil), nil
+	}
 	db := self.slock.dbs[request.DbId]
 	if db == nil {
 		return protocol.NewCallResultCommand(command, protocol.RESULT_UNKNOWN_DB, "UNKNOWN_DB_ERROR", nil), nil
@@ -1826,6 +1829,9 @@ func (self *BinaryServerProtocol) commandHandleListLockedCommand(_ *BinaryServer
 		return protocol.NewCallResultCommand(command, protocol.RESULT_ERROR, "DECODE_ERROR", nil), nil
 	}
 
+	if request.DbId >= uint32(len(self.slock.dbs)) {
+		return protocol.NewCallResultCommand(command, protocol.RESULT_UNKNOWN_DB, "UNKNOWN_DB_ERROR", nil), nil
+	}
 	db := self.slock.dbs[request.DbId]
 	if db == nil {
 		return protocol.NewCallResultCommand(command, protocol.RESULT_UNKNOWN_DB, "UNKNOWN_DB_ERROR", nil), nil
@@ -1899,6 +1905,9 @@ func (self *BinaryServerProtocol) commandHandleListWaitCommand(_ *BinaryServerPr
 		return protocol.NewCallResultCommand(command, protocol.RESULT_ERROR, "DECODE_ERROR", nil), nil
 	}
 
+	if request.DbId >= uint32(len(self.slock.dbs)) {
+		return protocol.NewCallResultCommand(command, protocol.RESULT_UNKNOWN_DB, "UNKNOWN_DB_ERROR", nil), nil
+	}
 	db := self.slock.dbs[request.DbId]
 	if db == nil {
 		return protocol.NewCallResultCommand(command, protocol.RESULT_UNKNOWN_DB, "UNKNOWN_DB_ERROR", nil), nil
